@@ -71,6 +71,27 @@ pub fn catch<R, F: FnOnce() -> R>(f: F) -> Result<R, String> {
 pub fn panic_loc(p: &str) -> &str { p.rsplit(" @ ").next().unwrap_or("") }
 
 // ---------------------------------------------------------------------------------------------
+// "last case" files: written before a call that might kill the process (stack overflow, allocation abort),
+// which catch_unwind cannot see. ./check attributes an abnormal exit to the case found there.
+// ---------------------------------------------------------------------------------------------
+static LASTCASE_PATH: std::sync::OnceLock<String> = std::sync::OnceLock::new();
+pub fn set_lastcase_path(p: &str) { let _ = LASTCASE_PATH.set(p.to_string()); }
+thread_local! { static LASTCASE_FILE: std::cell::RefCell<Option<std::fs::File>> = std::cell::RefCell::new(None); }
+pub fn precall(case: &Case) {
+  use std::io::{Seek, SeekFrom, Write};
+  if let Some(base) = LASTCASE_PATH.get() {
+    LASTCASE_FILE.with(|f| {
+      let mut f = f.borrow_mut();
+      if f.is_none() { let id = format!("{:?}", std::thread::current().id()).replace(|c: char| !c.is_ascii_digit(), ""); *f = std::fs::OpenOptions::new().create(true).write(true).open(format!("{}.{}", base, id)).ok(); }
+      if let Some(file) = f.as_mut() { let line = format!("{}\n", case.to_line()); let _ = file.seek(SeekFrom::Start(0)); let _ = file.write_all(line.as_bytes()); let _ = file.set_len(line.len() as u64); }
+    });
+  }
+}
+pub fn postcall() {
+  if LASTCASE_PATH.get().is_some() { LASTCASE_FILE.with(|f| { if let Some(file) = f.borrow_mut().as_mut() { let _ = file.set_len(0); } }); }
+}
+
+// ---------------------------------------------------------------------------------------------
 // Cases: replayable inputs as "k=v k=v" strings (floats as raw bit patterns)
 // ---------------------------------------------------------------------------------------------
 #[derive(Clone, Debug, Default)]
